@@ -331,4 +331,30 @@ Proof.
     apply apply_all_other; intros e0 He0; apply pkgs_effects_not_sum_path with (gens := gens) (s := s) (a := a); assumption.
 Qed.
 
+(* the crash point between the two effects of the save (after open-with-truncate, before the write): the sum is empty *)
+Theorem crash_inside_save : forall a w gens s,
+  exec_outcome E a w gens s = Done -> a_all a = true ->
+  fs_lookup (sum_path w)
+    (apply_all (firstn (S (List.length (pkgs_effects E a w gens s))) (effects E a w gens s)) s) = Some [].
+Proof.
+  intros a w gens s Hdone Hall. rewrite effects_split, Hdone, Hall, firstn_app.
+  rewrite firstn_all2 by lia.
+  replace (S (List.length (pkgs_effects E a w gens s)) - List.length (pkgs_effects E a w gens s)) with 1 by lia.
+  cbn [save_effects firstn]. rewrite apply_all_app. cbn [apply_all fold_left apply_effect].
+  apply lookup_set_same.
+Qed.
+
+(* ... and an empty gengo.sum makes the next run regenerate every package that has a hash (for any sum parser that
+   reads nothing out of nothing) *)
+Theorem empty_sum_regenerates : forall a w s p,
+  e_sum_load E [] = [] -> fs_lookup (sum_path w) s = Some [] ->
+  sum_get (current_sum w) (pk_path p) <> [] ->
+  pkg_changed a w (load_prev E a w s) p = true.
+Proof.
+  intros a w s p Hload Hs Hh. unfold pkg_changed. destruct (a_force a); [reflexivity|].
+  unfold load_prev. destruct (a_all a && existsb (is_direct w) (w_pkgs w)); [|reflexivity].
+  rewrite Hs, Hload. cbn [sum_get].
+  destruct (sum_get (current_sum w) (pk_path p)); [contradiction | reflexivity].
+Qed.
+
 End C02.
